@@ -1,6 +1,7 @@
 """C10 -- resizing preserves submitted work and surviving workers, and terminates."""
 from ..rules import liveness as L
 from ..rules import reusable as X
+from ..rules import timeouts as T
 
 EXPLANATION = (
     "Static analysis. Decides: _resize and the reusable submit hold the same lock object; the wait for job completion "
@@ -16,6 +17,7 @@ def run(e, R, tier):
         L.r_lock_order,
         L.r_iter_snapshot,
         X.r_resize,
+        T.r_timeout_exit,
         lambda e, R: L.r_poll(e, R, only_funcs={f.qualname for f in e.prog.funcs.values() if f.module.name == "loky.reusable_executor"}),
         L.r_wake,
     ])
